@@ -366,19 +366,115 @@ def r13_3(ctx: Ctx):
     return obs
 
 
-def r13_4(ctx: Ctx):
+def _const_fold(e):
+    """Boolean constant folding of IfExp / and / or / not."""
+    if isinstance(e, ast.IfExp):
+        t, a, b = _const_fold(e.test), _const_fold(e.body), _const_fold(e.orelse)
+        if isinstance(t, ast.Constant):
+            return a if t.value else b
+        if isinstance(a, ast.Constant) and a.value is False:
+            return _const_fold(ast.BoolOp(op=ast.And(), values=[ast.UnaryOp(op=ast.Not(), operand=t), b]))
+        if isinstance(b, ast.Constant) and b.value is False:
+            return _const_fold(ast.BoolOp(op=ast.And(), values=[t, a]))
+        return ast.IfExp(test=t, body=a, orelse=b)
+    if isinstance(e, ast.UnaryOp) and isinstance(e.op, ast.Not):
+        o = _const_fold(e.operand)
+        if isinstance(o, ast.Constant):
+            return ast.Constant(value=not o.value)
+        if isinstance(o, ast.UnaryOp) and isinstance(o.op, ast.Not):
+            return o.operand
+        return ast.UnaryOp(op=ast.Not(), operand=o)
+    if isinstance(e, ast.BoolOp):
+        vals = []
+        for v in (_const_fold(x) for x in e.values):
+            if isinstance(v, ast.Constant) and isinstance(v.value, bool):
+                if isinstance(e.op, ast.And) and not v.value:
+                    return ast.Constant(value=False)
+                if isinstance(e.op, ast.Or) and v.value:
+                    return ast.Constant(value=True)
+                continue
+            if isinstance(v, ast.BoolOp) and type(v.op) is type(e.op):
+                vals.extend(v.values)
+            else:
+                vals.append(v)
+        if not vals:
+            return ast.Constant(value=isinstance(e.op, ast.And))
+        return vals[0] if len(vals) == 1 else ast.BoolOp(op=e.op, values=vals)
+    return e
+
+
+def r13_4(ctx: Ctx, with_equivalence: bool = False, strict_ties: bool = False):
     """R13.4 Individual.__lt__ / __eq__ delegate to problem.worse_than / equivalent with (self, other) in that order."""
     obs = []
     for meth, target in (("__lt__", "worse_than"), ("__eq__", "equivalent")):
         m = ctx.prog.own_method("Individual", meth)
         sn, other = m.params()[0], m.params()[1]
         rets = [r for r in body_walk(m.node) if isinstance(r, ast.Return) and not (isinstance(r.value, ast.Constant))]
-        ok = len(rets) == 1 and isinstance(rets[0].value, ast.Call) and norm(rets[0].value.func) == f"{sn}.problem.{target}" and [norm(a) for a in rets[0].value.args] == [f"{sn}.fitness", f"{other}.fitness"]
-        obs.append(ctx.ob("R13.4", m, rets[0] if rets else m.node, status=OK if ok else VIOLATION, detail=f"{meth} = problem.{target}(self.fitness, other.fitness)" if ok else f"Individual.{meth} is `{norm(rets[0].value) if rets else '?'}`: the direction-aware order of individuals is broken or reversed"))
+        mdefs = local_defs(m)
+        rv = ast.parse(canon(rets[0].value, mdefs), mode="eval").body if len(rets) == 1 else None
+        all_rets = [r for r in body_walk(m.node) if isinstance(r, ast.Return)]
+        if rv is None or len(all_rets) > 1:
+            # several exits: reduce the body to one expression and drop the `other is None` guard
+            from ..normalize import _expr_of_block, _simplify_bool
+
+            body = [x for x in m.node.body if not (isinstance(x, ast.Expr) and isinstance(x.value, ast.Constant))]
+            E = _expr_of_block(body, ast.Constant(value=None))
+            if E is not None:
+                class G(ast.NodeTransformer):
+                    def visit_Compare(self, node):
+                        if len(node.ops) == 1 and isinstance(node.ops[0], (ast.Is, ast.IsNot, ast.Eq, ast.NotEq)) and canon(node.left) == other and canon(node.comparators[0]) == "None":
+                            return ast.Constant(value=isinstance(node.ops[0], (ast.IsNot, ast.NotEq)))
+                        return node
+
+                rv = _const_fold(_simplify_bool(G().visit(E)))
+                rets = rets[-1:]
+        want_args = [f"{sn}.fitness", f"{other}.fitness"]
+        st = INCONCLUSIVE
+        if isinstance(rv, ast.Call) and norm(rv.func) in (f"{sn}.problem.{target}", f"{sn}._problem.{target}") and [canon(a) for a in rv.args] == want_args:
+            st = OK
+        elif isinstance(rv, ast.BoolOp) and any(isinstance(x, ast.Call) and norm(x.func).endswith(f".{target}") and [canon(a) for a in x.args] == want_args for x in rv.values) and len(rv.values) > 1:
+            # e.g. __eq__ = equivalent(...) and <more>: finer than the order's own equivalence, so the `>` that total_ordering
+            # derives (not < and not ==) holds between fitness-tied individuals. That matters only where a strict comparison is
+            # relied on to exclude ties (the LevelLimit cut, C08.O7); the direction symmetry (C13) and best-of queries (C04) are
+            # unaffected as long as the extra conjuncts do not look at the fitness.
+            extra_reads_fitness = any(isinstance(y, ast.Attribute) and y.attr in ("fitness", "_fitness") for x in rv.values if not (isinstance(x, ast.Call) and norm(x.func).endswith(f".{target}")) for y in ast.walk(x))
+            st = VIOLATION if strict_ties else INCONCLUSIVE if extra_reads_fitness else OK
+        elif isinstance(rv, ast.Call) and norm(rv.func).endswith((".worse_than", ".equivalent")):
+            st = VIOLATION  # the other predicate, swapped operands, or the other individual's problem
+        elif isinstance(rv, ast.UnaryOp) and isinstance(rv.op, ast.Not) and isinstance(rv.operand, ast.Call) and norm(rv.operand.func).endswith((".worse_than", ".equivalent")):
+            st = VIOLATION
+        elif isinstance(rv, ast.Compare) and all(canon(x) in want_args for x in [rv.left] + rv.comparators) and meth == "__lt__":
+            st = VIOLATION  # raw fitness comparison: not direction-aware
+        elif isinstance(rv, ast.Compare) and meth == "__eq__" and len(rv.ops) == 1 and isinstance(rv.ops[0], ast.Eq) and sorted(canon(x) for x in [rv.left] + rv.comparators) == sorted(want_args):
+            st = OK  # exact equality of the fitness values is what every shipped `equivalent` computes
+        elif isinstance(rv, ast.Call) and norm(rv.func).split(".")[-1] in ("isclose", "allclose"):
+            st = VIOLATION
+        obs.append(ctx.ob("R13.4", m, rets[0] if rets else m.node, status=st, detail=f"{meth} = problem.{target}(self.fitness, other.fitness)" if st == OK else f"Individual.{meth} is `{norm(rets[0].value) if rets else '?'}`: the direction-aware order of individuals is broken or reversed"))
     ci = ctx.prog.cls("Individual")
     ok = "total_ordering" in " ".join(ci.decorators)
     extra = [n for n in ("__gt__", "__le__", "__ge__") if n in ci.methods]
-    obs.append(ctx.ob("R13.4", ci, ci.node, status=OK if (ok and not extra) else VIOLATION, detail="remaining comparisons derived by functools.total_ordering" if (ok and not extra) else f"Individual defines {extra or 'no total_ordering'}: the derived comparisons may disagree with __lt__/__eq__", construct="total_ordering"))
+    obs.append(ctx.ob("R13.4", ci, ci.node, status=OK if (ok and not extra) else INCONCLUSIVE, detail="remaining comparisons derived by functools.total_ordering" if (ok and not extra) else f"Individual defines {extra or 'no total_ordering'}: the derived comparisons may disagree with __lt__/__eq__", construct="total_ordering"))
+    if not with_equivalence:
+        return obs
+    # (C04 only) the equivalence every problem inherits is exact equality: a tolerance is not transitive, the order stops being
+    # a total preorder and max() / sorted() can return a non-best individual. Symmetric under f -> -f, so C13 is not concerned.
+    pe = ctx.prog.own_method("Problem", "equivalent")
+    a, b = pe.params()[1], pe.params()[2]
+    rets = [r for r in body_walk(pe.node) if isinstance(r, ast.Return) and r.value is not None]
+    rv = ast.parse(canon(rets[0].value, local_defs(pe)), mode="eval").body if len(rets) == 1 else None
+    st = INCONCLUSIVE
+    if isinstance(rv, ast.Compare) and len(rv.ops) == 1 and isinstance(rv.ops[0], ast.Eq) and sorted([canon(rv.left), canon(rv.comparators[0])]) == sorted([a, b]):
+        st = OK
+    elif rv is not None and any(isinstance(x, ast.Call) and norm(x.func).split(".")[-1] in ("isclose", "allclose", "abs", "fabs", "round") for x in ast.walk(rv)):
+        st = VIOLATION
+    elif isinstance(rv, ast.Compare) and len(rv.ops) == 1 and isinstance(rv.ops[0], (ast.LtE, ast.GtE, ast.Lt, ast.Gt, ast.NotEq)):
+        st = VIOLATION
+    obs.append(ctx.ob("R13.4", pe, rets[0] if rets else pe.node, status=st, detail="Problem.equivalent is exact equality of the two fitness values" if st == OK else f"Problem.equivalent is `{norm(rets[0].value) if rets else '?'}`: equality up to a tolerance is not transitive, so Individual's order is no longer a total preorder (max / sorted / the strict `>` cut can return a non-best individual)", construct="equivalent"))
+    for ci2 in ctx.prog.subclasses(ctx.prog.cls("Problem")):
+        m2 = ci2.methods.get("equivalent")
+        if m2 is None or ci2.name in ("ProblemWrapper",) or any(c.name == "ProblemWrapper" for c in ctx.prog.mro(ci2)):
+            continue
+        obs.append(ctx.ob("R13.4", m2, m2.node, status=INCONCLUSIVE, detail=f"{ci2.name} overrides `equivalent`: the analyser does not know this equivalence", construct=f"{ci2.name}.equivalent"))
     return obs
 
 
